@@ -1230,6 +1230,90 @@ fn cross_module_layer(rep: &mut Report) {
     rep.layer(l);
 }
 
+/// Annotation sites x annotated types: the annotation is the only thing that constrains the
+/// value, so the shown function type says whether the annotation was used.
+fn annotation_cases() -> Vec<(String, String, String, RTy)> {
+    // (site, type text, function text, expected type of `an`)
+    let f = |ps: Vec<RTy>, r: RTy| Fn(ps, Box::new(r));
+    let types: Vec<(&str, RTy)> = vec![
+        ("Int", Int),
+        ("String", Str),
+        ("List(Int)", List(Box::new(Int))),
+        ("#(Int, String)", it()),
+        ("fn(Int) -> String", f(vec![Int], Str)),
+        ("Result(Int, String)", ris()),
+        ("Box(Int)", boxed(Int)),
+        ("Pair", pair()),
+        ("Color", color()),
+        ("Ints", List(Box::new(Int))),
+        ("List(a)", List(Box::new(Var("a".into())))),
+        ("a", Var("a".into())),
+        ("Box(#(a, Int))", boxed(Tuple(vec![Var("a".into()), Int]))),
+    ];
+    let mut out = vec![];
+    for (tt, t) in &types {
+        let t = t.clone();
+        let sites: Vec<(&str, String, RTy)> = vec![
+            ("parameter", format!("fn an(q: {tt}) {{ q }}"), f(vec![t.clone()], t.clone())),
+            ("return", format!("fn an(q) -> {tt} {{ q }}"), f(vec![t.clone()], t.clone())),
+            ("let", format!("fn an(q) {{ let v: {tt} = q v }}"), f(vec![t.clone()], t.clone())),
+            ("let of todo", format!("fn an() {{ let v: {tt} = todo v }}"), f(vec![], t.clone())),
+            ("lambda parameter, applied", format!("fn an(q) {{ let g = fn(z: {tt}) {{ z }} g(q) }}"), f(vec![t.clone()], t.clone())),
+            ("lambda parameter, returned", format!("fn an() {{ fn(z: {tt}) {{ z }} }}"), f(vec![], f(vec![t.clone()], t.clone()))),
+            ("second lambda parameter", format!("fn an() {{ fn(y, z: {tt}) {{ #(y, z) }} }}"), f(vec![], f(vec![Var("zz".into()), t.clone()], Tuple(vec![Var("zz".into()), t.clone()])))),
+            ("lambda return", format!("fn an() {{ fn(z) -> {tt} {{ z }} }}"), f(vec![], f(vec![t.clone()], t.clone()))),
+            ("use binder", format!("fn an(q) {{ use z: {tt} <- apply(q) z }}"), f(vec![t.clone()], t.clone())),
+        ];
+        for (site, text, want) in sites {
+            out.push((site.to_string(), tt.to_string(), text, want));
+        }
+    }
+    out
+}
+
+fn eval_annotation_case(text: &str, want: &RTy) -> Option<String> {
+    let main = format!("{PRELUDE}{text}\n");
+    let ws = crate::ana::ws::Workspace::single(&[("main", &main)]);
+    let files = ws.files();
+    let host = ws.host();
+    let an = host.snapshot();
+    if let Ok(Ok(d)) = catch(|| an.diagnostics(files[0].id)) {
+        if !d.is_empty() {
+            return Some(format!("MACHINERY: program has syntax errors: {:?}", d.iter().take(2).collect::<Vec<_>>()));
+        }
+    }
+    let off = main.find("fn an(").unwrap() + 3;
+    let got = hover_type(&an, files[0].id, off);
+    let ok = match &got {
+        Ok(Some(g)) => g.strip_prefix("fn an").map(|r| format!("fn{r}")).and_then(|s| parse_ty(&s)).map_or(false, |g| alpha_eq(&g, want)),
+        _ => false,
+    };
+    if ok {
+        None
+    } else {
+        Some(format!("`{text}`: shown {got:?}, Gleam's type is `{}`", show(want)))
+    }
+}
+
+fn annotations_layer(rep: &mut Report) {
+    let cases = annotation_cases();
+    let mut l = Layer { name: "annotation-sites".into(), exhaustive: true, ..Default::default() };
+    for (site, tt, text, want) in &cases {
+        l.states += 1;
+        l.executions += 1;
+        l.transitions += 1;
+        if let Some(msg) = eval_annotation_case(text, want) {
+            if msg.starts_with("MACHINERY") {
+                rep.machinery(format!("annotation case {site} / {tt}: {msg}"));
+                continue;
+            }
+            rep.violation(Violation { class: "function-type".into(), key: format!("annotation|{site}"), witness: json!({"annotation_site": site, "annotated_type": tt}), detail: format!("[annotation on {site}] {msg}") });
+        }
+    }
+    l.bound = format!("{} functions: 9 annotation sites (parameter, return, let, let of `todo`, lambda parameter applied / returned / second of two, lambda return, use binder) x 13 annotated types (scalars, list, tuple, function, Result, generic record, records, alias, type variables); the annotation alone determines the function's type", cases.len());
+    rep.layer(l);
+}
+
 fn permutations(n: usize) -> Vec<Vec<usize>> {
     fn rec(cur: &mut Vec<usize>, n: usize, out: &mut Vec<Vec<usize>>) {
         if cur.len() == n {
@@ -1449,6 +1533,7 @@ pub fn run(tier: Tier) -> i32 {
     graphs_layer(&mut rep, tier);
     binary_graphs_layer(&mut rep);
     cross_module_layer(&mut rep);
+    annotations_layer(&mut rep);
     rep.distinct_nontrivial = exprs.len() as u64;
     rep.distinct_outcomes = 1 + rep.violations.iter().map(|v| v.key.clone()).collect::<BTreeSet<_>>().len() as u64;
     rep.rule = "each expression is distinct by text; its type is known by construction (typing rules); shown types are parsed and compared up to a bijective renaming of type variables".into();
@@ -1462,6 +1547,10 @@ pub fn replay(w: &Value) -> Vec<String> {
     if let (Some(stmt), Some(t)) = (w["stmt"].as_str(), w["type"].as_str()) {
         let Some(ty) = parse_ty(t) else { return vec!["bad type".into()] };
         return check_bindings(&[stmt.to_string()], &[(0, "v0", ty)]).into_iter().map(|f| f.1).collect();
+    }
+    if let (Some(site), Some(tt)) = (w["annotation_site"].as_str(), w["annotated_type"].as_str()) {
+        let Some((_, _, text, want)) = annotation_cases().into_iter().find(|c| c.0 == site && c.1 == tt) else { return vec!["unknown annotation case".into()] };
+        return eval_annotation_case(&text, &want).into_iter().collect();
     }
     if let Some(stmt) = w["context_stmt"].as_str() {
         if let Some((_, _, binders)) = context_cases().into_iter().find(|(_, s, _)| s == stmt) {
